@@ -39,7 +39,7 @@ Known regions (tagged, generated with small probability only):
 distinct / non-trivial: a toc case is non-trivial if it has >= 2 headings in range or an explicit id or a duplicate
 slug; a footnote case if it has >= 1 rendered reference.  `distinct` counts distinct (source, config) pairs of those.
 """
-import itertools
+import itertools, re
 import htmlread2 as H
 from gen.timeout import time_limit, ConversionTimeout
 
@@ -55,6 +55,15 @@ FINDINGS = [
     {'id': 'F-C17-3', 'property': 'C17', 'status': 'open',
      'what': 'a footnote reference inside an image alt text or link title is flattened to text but counted: extra back-links dangle',
      'witness': {'kind': 'fn', 'src': 'a[^1] ![alt[^1]](u)\n\n[^1]: note', 'config': {}}},
+    {'id': 'F-C17-5', 'property': 'C17', 'status': 'open',
+     'what': 'a footnote definition inside the text of another footnote: the table of footnotes is extended while it is iterated over; inside the LAST footnote the new footnote is never rendered and its reference dangles (inside an earlier one: RuntimeError, F-C02-2)',
+     'witness': {'kind': 'fn', 'src': 'x[^2] y[^1]\n\n[^1]: [^2]: q', 'config': {}}},
+    {'id': 'F-C17-4', 'property': 'C17', 'status': 'fixed', 'commit': '68e5106',
+     'what': 'toc + attr_list: an explicit id written with a backslash escape ({#a\\-b}) still held the escape placeholder when toc collected the ids in use, so a generated id could collide with it (two headings with id a-b)',
+     'witness': {'kind': 'toc', 'src': '# x {#a\\-b}\n\n# a b\n\n[TOC]', 'config': {'toc': {}, 'attr_list': True}, 'explicit': [True, False]}},
+    {'id': 'F-C17-4', 'property': 'C17', 'status': 'fixed', 'commit': '68e5106',
+     'what': 'toc + attr_list: an explicit id written with a backslash escape ({#a\\-b}) still held the escape placeholder when toc collected the ids in use, so a generated id could collide with it (two headings with id a-b)',
+     'witness': {'kind': 'toc', 'src': '# x {#a\\_1}\n\n# a\n\n# a\n\n[TOC]', 'config': {'toc': {}, 'attr_list': True}, 'explicit': [True, False, False]}},
 ]
 
 
@@ -273,7 +282,7 @@ TITLES = ['Intro', 'intro', 'INTRO', 'a b', 'a  b', 'a-b', 'a - b', 'a_1', '_1',
           'a &amp; b', 'AT&T', '"q"', 'a\\_1', 'a\\*b', 'a 1 2', 'fn 1', 'fnref 1', 'fn-1', 'x_1', 'x_01', 'x_1_1', 'toc', 'a b', 'a\tb',
           'A B', 'a b c', 'c', 'ab']
 IDS = ['intro', 'a-b', 'a_1', '_1', '_2', 'a-b_1', 'x', 'X', 'x_1', 'x_01', 'é', 'a', 'a_2', 'b', '1', 'fn-1', 'fnref-1', 'e', 'ss', 'привет', 'a-1',
-       'toc', 'c', 'ab', 'a-b-c']
+       'toc', 'c', 'ab', 'a-b-c', 'a\\-b', 'a\\_1', 'x\\_1', '\\_1', 'a\\-b\\_1']
 
 
 def _attr(rng, i):
@@ -431,10 +440,14 @@ def _viol(kind, src, cfg, code, observed, required, finding=None, extra=None):
     return v
 
 
+_NESTED_FNDEF = re.compile(r'^(?:[ ]{4,}|\t+[ ]*|[ ]{0,3}\[\^[^\]\n]*\]:[^\n]*)\[\^[^\]\n]*\]:', re.M)   # a definition on a definition's line or indented into its body
+
+
 def _fn_region_tag(src, region, tags):
     """narrow classification of a footnote problem into the known regions"""
     if region: return region
     if 'F-C17-3' in tags: return 'F-C17-3'
+    if _NESTED_FNDEF.search(src): return 'F-C17-5'
     return None
 
 
@@ -519,7 +532,8 @@ def search(driver, rng, n):
         except Exception as e:
             if isinstance(e, ConversionTimeout): bump('timeouts')
             viol.append(_viol('fn', src, cfg, 'EXC', 'conversion raised %s: %s' % (type(e).__name__, e), 'an output with ids and links',
-                              None, {'previous': prev})); mds.clear(); continue
+                              'F-C17-5' if (isinstance(e, RuntimeError) and 'mutated during iteration' in str(e) and _NESTED_FNDEF.search(src)) else None,
+                              {'previous': prev})); mds.clear(); continue
         if 'unreadable' in info: bump('fn_unreadable'); bump('fn_unreadable: ' + info['unreadable'][:40]); continue
         bump('fn_docs'); bump('fn_refs', info['refs']); bump('fn_notes', info['notes'])
         if twice: bump('fn_second_doc_on_instance')
